@@ -6,6 +6,9 @@
 //! (b) for every `Name`, `&src[offset..end_offset] == name.as_str()`;
 //! (c) for every char-boundary offset of the text, `SourceFile::get_line_column(offset)` equals
 //!     `RefLineCol` (offsets inside a `\r\n` are not judged);
+//! (e) for every such location, `SourceSpan::line_column_range` starts at `RefLineCol(offset)` and ends
+//!     at `RefLineCol(end_offset)` or at the position of the span's last scalar value (the
+//!     documentation says "inclusive", the code converts the exclusive end: both readings pass);
 //! (d) `Diagnostic::line_column_range().start` and `to_json().locations` equal `RefLineCol` of the
 //!     diagnostic's span start.
 //!
@@ -498,6 +501,7 @@ fn judge_items(ctx: &mut Ctx, container: &'static str, acc: &Acc, sources: &Sour
         return;
     }
     let mut failures: Vec<(&'static str, &'static str, &'static str, String, Value)> = Vec::new();
+    let mut table: Option<Vec<Pos>> = None;
     for it in &acc.items {
         ctx.class("visited", it.what);
         let case = || json!({"text": text, "container": container, "item": it.what, "name": it.name, "location": it.loc.map(|l| json!([l.offset(), l.end_offset()]))});
@@ -531,12 +535,52 @@ fn judge_items(ctx: &mut Ctx, container: &'static str, acc: &Acc, sources: &Sour
                 failures.push(("b", it.what, "location-text-differs-from-name", format!("{} `{}` has location {s}..{e} whose text is {:?}", it.what, n, clip(&src[s..e], 60)), case()));
             }
         }
+        // (e) both ends of the location's line/column range are conversions of byte offsets. The
+        // documentation calls the range "inclusive" while the code converts the exclusive end
+        // offset: either reading of the end is accepted (the end offset, or the last scalar value
+        // of the span); for an empty span the end equals the start.
+        if loc.file_id() == the_file.unwrap_or(loc.file_id()) && src == text {
+            let table = table.get_or_insert_with(|| linecol::table(text));
+            if let (Some(ps), Some(pe)) = (linecol::at(table, s), linecol::at(table, e)) {
+                let last = src[s..e].char_indices().last().map(|(i, _)| s + i).and_then(|o| linecol::at(table, o));
+                let crlf = ps.inside_crlf || pe.inside_crlf || last.map(|p| p.inside_crlf).unwrap_or(false);
+                if !crlf {
+                    ctx.count("location_ranges_converted", 1);
+                    if ps.line != pe.line {
+                        ctx.count("location_ranges_spanning_lines", 1);
+                        if !ctx.has_class("location_range", "spans several lines") {
+                            ctx.class("location_range", "spans several lines");
+                        }
+                        if src[s..e].contains('\r') && !src[s..e].contains('\n') && !ctx.has_class("location_range", "spans a lone CR and no LF") {
+                            ctx.class("location_range", "spans a lone CR and no LF");
+                        }
+                    }
+                    match loc.line_column_range(sources) {
+                        None => failures.push(("e", it.what, "line_column_range-none", format!("{} at {s}..{e} has no line/column range", it.what), case())),
+                        Some(r) => {
+                            if (r.start.line, r.start.column) != (ps.line, ps.column) {
+                                failures.push(("e", it.what, "line_column_range-start", format!("{} at {s}..{e}: range starts at {:?}, expected {}:{}", it.what, r.start, ps.line, ps.column), case()));
+                            }
+                            let end_ok = (r.end.line, r.end.column) == (pe.line, pe.column)
+                                || match last {
+                                    Some(l) => (r.end.line, r.end.column) == (l.line, l.column),
+                                    None => false,
+                                };
+                            if !end_ok {
+                                let how = if ps.line == pe.line { "line_column_range-end-on-one-line" } else { "line_column_range-end-across-lines" };
+                                failures.push(("e", it.what, how, format!("{} at {s}..{e}: range ends at {:?}, expected {}:{} (exclusive end) or the position of its last character", it.what, r.end, pe.line, pe.column), case()));
+                            }
+                        }
+                    }
+                }
+            }
+        }
         }
     // Names of every kind go through one conversion (`Convert for cst::Name`): the kind of the
     // enclosing item is reported in the message, not in the signature. Nodes keep their kind.
     for (clause, what, failure, message, case) in failures {
         let is_name = case.get("name").is_some_and(|n| !n.is_null());
-        let what = if is_name { "Name" } else { what };
+        let what = if is_name { "Name" } else if clause == "e" { "Node" } else { what };
         ctx.violation(format!("{clause}|{container}|{what}|{failure}"), message, case);
     }
 }
@@ -742,6 +786,28 @@ fn judge_diagnostics(ctx: &mut Ctx, list: &DiagnosticList, stage: &'static str, 
                         format!("diagnostic at byte {} reports {:?}, expected {}:{}", span.offset(), r.start, p.line, p.column),
                         case(),
                     );
+                }
+                // the end of the range: either reading (exclusive end offset / last scalar value)
+                let pe = linecol::at(&sw.table, span.end_offset());
+                let src_ok = d.sources.get(&id).map(|f| f.source_text().is_char_boundary(span.offset()) && f.source_text().is_char_boundary(span.end_offset()) && span.offset() <= span.end_offset()).unwrap_or(false);
+                if let (Some(pe), true) = (pe, src_ok) {
+                    let file = d.sources.get(&id).unwrap();
+                    let last = file.source_text()[span.offset()..span.end_offset()].char_indices().last().map(|(i, _)| span.offset() + i).and_then(|o| linecol::at(&sw.table, o));
+                    let judged = !pe.inside_crlf && !last.map(|l| l.inside_crlf).unwrap_or(false) && sw.apollo[idx] == Some((p.line, p.column));
+                    if judged {
+                        ctx.count("diagnostic_range_ends_compared", 1);
+                        let ok = (r.end.line, r.end.column) == (pe.line, pe.column) || last.map(|l| (r.end.line, r.end.column) == (l.line, l.column)).unwrap_or(false);
+                        // only when get_line_column itself agrees at the end offset (otherwise clause (c) reports the cause)
+                        let end_idx = sw.table.binary_search_by_key(&span.end_offset(), |q| q.offset).ok();
+                        let sweep_agrees = end_idx.map(|i| sw.apollo[i] == Some((pe.line, pe.column))).unwrap_or(false);
+                        if !ok && sweep_agrees {
+                            ctx.violation(
+                                format!("d|line_column_range|end|{}", if p.line == pe.line { "on-one-line" } else { "across-lines" }),
+                                format!("diagnostic spanning bytes {}..{} reports its end at {:?}, expected {}:{} (exclusive end) or the position of its last character", span.offset(), span.end_offset(), r.end, pe.line, pe.column),
+                                case(),
+                            );
+                        }
+                    }
                 }
             }
         }
